@@ -35,6 +35,9 @@ def run_job(j):
     kw = {}
     if j.get('inplace') is False:
         kw['inplace_vectorfield'] = False
+    if j.get('sweep'):      # the same model was simulated before in this process with other parameter values (a sweep)
+        m0 = dict(case['m'], c=[v + 2 for v in case['m']['c']], x0=[v + 1 for v in case['m']['x0']])
+        linmodel.run_model(m0, case['cfg'], scale=j['scale'], precision=j['precision'], backend=b, **kw)
     return linmodel.run_model(case['m'], case['cfg'], scale=j['scale'], precision=j['precision'], backend=b, **kw)
 
 
@@ -192,7 +195,8 @@ def run(ctx):
                 break
             k += 1
             jobs.append(dict(case=case, backend=b, scale=[1.0, 0.5][k % 2], precision=['float32', 'float64'][(k // 2) % 2],
-                             inplace=(False if (k % 3 == 0 and b != 'fortran' and _all_vector(case)) else None)))
+                             inplace=(False if (k % 3 == 0 and b != 'fortran' and _all_vector(case)) else None),
+                             sweep=(k % 4 == 1 and b != 'fortran')))
     outs = run_cases(run_job, jobs, timeout=900, nproc=12)
     verd = {}
     for j, o in zip(jobs, outs):
@@ -200,7 +204,7 @@ def run(ctx):
             raise RuntimeError(f'replay failed: {o}')
         ctx.replayed += 1
         case = j['case']
-        ctx.case(key=['run', j['backend'], case['m'], case['cfg'], j['scale'], j['precision'], j['inplace']], nontrivial=True)
+        ctx.case(key=['run', j['backend'], case['m'], case['cfg'], j['scale'], j['precision'], j['inplace'], j.get('sweep')], nontrivial=True)
         if case['cfg']['solver'] == 'scipy':
             exp = linmodel.expected_rows(case, 'expM')
             ok = sc.same(o, exp, tol=1e-5)
